@@ -6,7 +6,7 @@
 (*                                                                         *)
 (*   zorg edit PATHS   queue = << Edit >>     (db reindex: << Reindex >>,     *)
 (*                                            db create: << Create >>)       *)
-(*   Edit      refresh .zoq pages (not modelled), run the editor, then       *)
+(*   Edit      refresh the .zoq pages among the arguments, run the editor, then *)
 (*             EditorClosed                                                  *)
 (*   Closed    handler 1: the keep-alive file asks for another editor        *)
 (*             session (same arguments when the file is empty, the files     *)
@@ -31,6 +31,7 @@ EXTENDS Naturals, Sequences, FiniteSets, TLC
 CONSTANTS PageSeq,        \* the pages, in the order zorg walks them (sorted by file name)
           CliPaths,       \* the PATHS of `zorg edit PATHS`
           KaPaths,        \* what a user may write into the keep-alive file: set of [paths, focus]
+          ZoqFiles,       \* the paths that are saved-query pages (refreshed before the editor starts)
           MaxSess,        \* editor sessions after which the user stops asking for more
           MaxProc         \* `zorg edit` invocations
 
@@ -109,6 +110,9 @@ OfflineEdit ==
   /\ offl' = TRUE
   /\ UNCHANGED << queue, ka, running, aborted, sess, proc, vims, reidx, asked, wiped >>
 
+\* saved-query pages among the arguments are refreshed (rewritten from the index) before the editor starts
+Refreshed(paths) == SelectSeq(paths, LAMBDA x : x \in ZoqFiles)
+
 \* the editor runs; what the user does in it is the environment's choice
 HandleEdit ==
   /\ Handling("Edit")
@@ -116,7 +120,7 @@ HandleEdit ==
        /\ \A p \in PageSet : EditOK(ed[p], need[p])
        /\ need' = [p \in PageSet |-> Apply(ed[p], need[p])]
        /\ ka' = kc
-       /\ out' = << <<"vim", Msg.paths, Msg.focus, ed, kc>> >>
+       /\ out' = [i \in DOMAIN Refreshed(Msg.paths) |-> <<"w", Refreshed(Msg.paths)[i]>>] \o << <<"vim", Msg.paths, Msg.focus, ed, kc>> >>
   /\ queue' = Rest \o << [k |-> "Closed", paths |-> Msg.paths, focus |-> Msg.focus] >>
   /\ sess' = sess + 1 /\ vims' = vims + 1 /\ reidx' = 0 /\ asked' = FALSE
   /\ UNCHANGED << running, aborted, proc, offl, wiped >>
@@ -139,7 +143,14 @@ Changed == SelectSeq(PageSeq, LAMBDA p : Differs(p))
 FirstBroken == IF \E i \in DOMAIN Changed : need[Changed[i]].broken
                THEN CHOOSE i \in DOMAIN Changed : need[Changed[i]].broken /\ \A j \in 1..(i - 1) : ~need[Changed[j]].broken
                ELSE 0
-PageEffects(p) == [i \in 1..need[p].new |-> <<"w", "ids">>] \o << <<"commit", "db">> >>      \* one counter write per new ZID
+\* old rows removed, new rows added (one counter write per new ZID), the page committed.  Removing the old rows commits
+\* after every property link and every tag that becomes unused - how often is an accident of the page's content - so the
+\* observable is "one or more commits": runs of commits are squashed here and in the recorded traces alike.
+Commit == <<"commit", "db">>
+RECURSIVE Squash(_)
+Squash(s) == IF Len(s) <= 1 THEN s
+             ELSE IF s[1] = Commit /\ s[2] = Commit THEN Squash(Tail(s)) ELSE << s[1] >> \o Squash(Tail(s))
+PageEffects(p) == << Commit >> \o [i \in 1..need[p].new |-> <<"w", "ids">>] \o << Commit >>
 PageEvents(p) == (IF need[p].mod THEN << [k |-> "Mod", p |-> p] >> ELSE <<>>)
                  \o (IF need[p].new > 0 THEN << [k |-> "New", p |-> p] >> ELSE <<>>)
 
@@ -148,10 +159,10 @@ HandleReindex ==
   /\ reidx' = reidx + 1
   /\ IF FirstBroken # 0
      THEN \* "Zorg file has errors!": the pages walked before it are committed, their write-backs are lost with the process
-          /\ out' = Flat(Map(PageEffects, SubSeq(Changed, 1, FirstBroken - 1)))
+          /\ out' = Squash(Flat(Map(PageEffects, SubSeq(Changed, 1, FirstBroken - 1))))
           /\ queue' = <<>> /\ aborted' = TRUE
           /\ UNCHANGED need
-     ELSE /\ out' = Flat(Map(PageEffects, Changed)) \o << <<"w", "hash">>, <<"w", "wl">>, <<"commit", "db">> >>
+     ELSE /\ out' = Squash(Flat(Map(PageEffects, Changed))) \o << <<"w", "hash">>, <<"w", "wl">>, Commit >>
           /\ queue' = Rest \o Flat(Map(PageEvents, Changed))
           /\ need' = [p \in PageSet |-> IF need[p].mod \/ need[p].new > 0 THEN need[p] ELSE Clean]
           /\ UNCHANGED aborted
@@ -168,7 +179,7 @@ NewEvent(p) == IF need[p].new > 0 THEN << [k |-> "New", p |-> p] >> ELSE <<>>
 HandleCreate ==
   /\ Handling("Create")
   /\ IF FirstBrokenAll # 0
-     THEN /\ out' = Flat(Map(IdWrites, SubSeq(AllPages, 1, FirstBrokenAll)))      \* the broken page is added before it is judged
+     THEN /\ out' = Flat(Map(IdWrites, SubSeq(AllPages, 1, FirstBrokenAll - 1)))  \* (an unparsable page is never given ZIDs)
           /\ queue' = <<>> /\ aborted' = TRUE /\ wiped' = TRUE
           /\ UNCHANGED need
      ELSE /\ out' = Flat(Map(IdWrites, AllPages)) \o << <<"w", "hash">>, <<"w", "wl">>, <<"commit", "db">> >>
